@@ -54,6 +54,9 @@ def encode(x):
     return repr(x)
 
 
+# pools used by the "errors" mode need arrays/objects with several violations
+
+
 def observe(cls, schema, instance, validators, fmt=False):
     try:
         kw = {}
@@ -142,6 +145,93 @@ def judge(d, cls, schema, instance, validators, drafts, PyOps, meta):
     return None
 
 
+def loc_problems(d, root_schema, root_instance, errs):
+    """Executable Loc (C06) on real error objects: paths lead where the error says."""
+    probs = []
+    idk = "id" if d <= 4 else "$id"
+
+    def nav_instance(path):
+        cur = root_instance
+        for p in path:
+            cur = cur[p]
+        return cur
+
+    def nav_schema(path):
+        cur = root_schema
+        for p in path:
+            if isinstance(cur, dict) and "$ref" in cur and isinstance(cur["$ref"], str):
+                return ("ref-hop",)      # ref-free schemas only here
+            cur = cur[p]
+        return cur
+
+    def strict_eq(a, b):
+        from spec.pyops import py_jeq
+        return py_jeq(a, b)
+
+    def walk(e, depth=0):
+        ap, asp = list(e.absolute_path), list(e.absolute_schema_path)
+        if e.parent is not None:
+            if ap != list(e.parent.absolute_path) + list(e.relative_path):
+                probs.append("absolute_path != parent's absolute path + relative path")
+            if asp != list(e.parent.absolute_schema_path) + list(e.relative_schema_path):
+                probs.append("absolute_schema_path != parent's + relative")
+        jp = "$" + "".join("[%d]" % x if isinstance(x, int) else "." + x for x in ap)
+        try:
+            if e.json_path != jp:
+                probs.append("json_path %r != rendering %r" % (e.json_path, jp))
+        except Exception as ex:     # noqa
+            probs.append("json_path raised %s" % type(ex).__name__)
+        d3_required = d == 3 and e.validator == "required" and len(asp) >= 2 and asp[-1] == "required"
+        under_property_names = "propertyNames" in asp
+        false_schema = e.validator is None
+        try:
+            if not d3_required and not under_property_names:
+                if not strict_eq(nav_instance(ap), e.instance):
+                    probs.append("instance path %r does not reach error.instance" % (ap,))
+            if not false_schema and not d3_required:
+                if not asp or asp[-1] != e.validator:
+                    probs.append("schema path %r does not end with keyword %r" % (asp, e.validator))
+                if not (isinstance(e.schema, dict) and e.validator in e.schema and strict_eq(e.schema[e.validator], e.validator_value)):
+                    probs.append("error.schema[%r] != validator_value" % (e.validator,))
+                tgt = nav_schema(asp)
+                if tgt != ("ref-hop",) and not strict_eq(tgt, e.validator_value):
+                    probs.append("schema path %r does not reach validator_value" % (asp,))
+        except (KeyError, IndexError, TypeError) as ex:
+            probs.append("path navigation failed: %s %s (path %r / %r)" % (type(ex).__name__, ex, ap, asp))
+        for c in e.context:
+            if c.parent is not e:
+                probs.append("context error's parent is not the containing error")
+            walk(c, depth + 1)
+    for e in errs:
+        walk(e)
+    return probs
+
+
+def judge_errors(d, cls, schema, instance, validators, drafts, PyOps, meta):
+    """C05/C06: the multiset of (keyword, path, schema path, context) equals the reference; Loc holds."""
+    from spec import errors_ref
+    o = PyOps(d, meta_root=meta)
+    try:
+        real = list(cls(schema).iter_errors(instance))
+    except Exception as e:      # noqa
+        return None      # exceptions are C03's business
+    try:
+        exp = errors_ref.normalise(errors_ref.errors(d, schema, instance, o))
+    except Exception as e:      # noqa
+        return None
+    obs = errors_ref.normalise(errors_ref.observed(real))
+    if not exact_multiple_domain(schema, instance):
+        return None
+    if obs != exp:
+        return {"kind": "F", "mode": "errors", "draft": d, "schema": encode(schema), "instance": encode(instance),
+                "expected": {"errors": encode(exp)}, "observed": {"errors": encode(obs)}}
+    probs = loc_problems(d, schema, instance, real)
+    if probs:
+        return {"kind": "F", "mode": "errors", "draft": d, "schema": encode(schema), "instance": encode(instance),
+                "expected": {"loc": "every error locates itself"}, "observed": {"problems": probs[:5]}}
+    return None
+
+
 BIG = 10 ** 400
 
 VALUE_POOL = [
@@ -154,6 +244,10 @@ VALUE_POOL = [
     {"a": {"type": "integer"}, "b": {}}, {"a": ["b"]}, {"a": "b"}, {"a": {"required": True}}, {"a": {"required": ["b"]}},
     {"^a": {"type": "integer"}}, {"": {}}, {"a": {}}, {"b$": {}, "^a": {"type": "string"}}, {"a": True}, {"a": False},
     {"maxLength": 1}, {"a": 0}, {"a": False}, {"enum": [1]}, {"not": {}},
+    9007199254740992.0, 9007199254740993, {"a": {"default": 1}}, {"a": {"default": 1}, "b": {"title": "t"}},
+    ["a", "b", "c"], {"a": ["b", "c"]}, {"a": {"type": "integer"}, "b": {"type": "integer"}},
+    [{"type": "integer"}, {"type": "integer"}, {"type": "integer"}], {"type": "integer", "minimum": 5},
+    [{}, {"type": "integer"}], [True, {"type": "integer"}], ["string", {"type": "integer", "minimum": 5}],
 ]
 
 INSTANCE_POOL = [
@@ -161,7 +255,7 @@ INSTANCE_POOL = [
     [], [1], [1, 2], [1, "a"], ["a"], [1, 1], [1, 2, 3], [[0], [False]], [True, 1], [0, False], [{"a": 0}, {"a": False}],
     [1, 1.0], [0], [False], [[0]], [[False]],
     {}, {"a": 1}, {"a": "x"}, {"a": 1, "b": 2}, {"b": 1}, {"ab": 1}, {"": 1}, {"a": 1.5}, {"abc": "x", "b": 1},
-    {"a": 0}, {"a": False},
+    {"a": 0}, {"a": False}, ["x", "y", "z"], ["x", 1, "y"], {"a": "x", "b": "y"}, {"c": 1}, [1, True], [1, "x", "x"],
 ]
 
 
@@ -180,7 +274,7 @@ def search(job):
     d, k = job["draft"], job["keyword"]
     cls = classes(validators)[d]
     meta = json.load(open(root + "/jsonschema/schemas/draft%d.json" % d))
-    sibs = drafts.siblings(d, k)
+    sibs = list(drafts.siblings(d, k)) + [e for e in job.get("extra_siblings", []) if e not in drafts.siblings(d, k) and e != k]
     limit = job.get("limit", 3)
     out, tried, schemas = [], 0, 0
     seen_kinds = set()
@@ -196,9 +290,12 @@ def search(job):
             schemas += 1
             for x in INSTANCE_POOL:
                 tried += 1
-                f = judge(d, cls, schema, x, validators, drafts, PyOps, meta)
+                if job.get("mode") == "errors":
+                    f = judge_errors(d, cls, schema, x, validators, drafts, PyOps, meta)
+                else:
+                    f = judge(d, cls, schema, x, validators, drafts, PyOps, meta)
                 if f is not None:
-                    key = (f["kind"], f["observed"].get("exception"), json.dumps(f["schema"], sort_keys=True)[:60])
+                    key = (f["kind"], f["observed"].get("exception"), json.dumps(f["schema"], sort_keys=True, default=str)[:60])
                     if key in seen_kinds:
                         continue
                     seen_kinds.add(key)
@@ -221,7 +318,10 @@ def replay(job):
         return {"status": "precondition-false", "why": "schema not accepted by the bundled metaschema (executable spec)"}
     if not patterns_ok(schema):
         return {"status": "precondition-false", "why": "a regular expression does not compile"}
-    f = judge(d, cls, schema, instance, validators, drafts, PyOps, meta)
+    if job.get("mode") == "errors":
+        f = judge_errors(d, cls, schema, instance, validators, drafts, PyOps, meta)
+    else:
+        f = judge(d, cls, schema, instance, validators, drafts, PyOps, meta)
     if f is None:
         return {"status": "agrees"}
     return {"status": "fails", "failure": f}
